@@ -242,5 +242,148 @@ def run(chk):
                 'inside the server loop and no reply frame is sent', PY, width2[0][2])
     else:
         chk.ok('C25-R3', 'py-send-size')
+    recv_loop_rule(chk, tree)
     return ('Protocol table and I/O discipline comparison between src/dummy.rs (typed HIR, ADT discriminants) and src/scripts/repl_server.py (python ast). '
             'Decides framing agreement, exact-length I/O and size==payload; the correspondence of results to inputs in DummyVM::eval is not decided.'), {}
+
+
+class _Abort(Exception):
+    pass
+
+
+def _simulate_recv(fdef, n, pieces):
+    """abstractly run `_recv_exact(self, n)` (python ast) on a socket that hands out `pieces` (lengths): byte strings are modelled by their lengths.
+    returns (length returned, bytes taken from the socket) or raises _Abort(reason)"""
+    stream = list(pieces)
+    taken = [0]
+
+    def recv(k):
+        if k is None or k <= 0 or not stream:
+            return 0
+        got = min(k, stream[0])
+        stream[0] -= got
+        if stream[0] == 0:
+            stream.pop(0)
+        taken[0] += got
+        return got
+    params = [a.arg for a in fdef.args.args]
+    env = {params[-1]: n}
+    steps = [0]
+
+    def ev(e):
+        if isinstance(e, ast.Constant):
+            if isinstance(e.value, (int, bool)):
+                return int(e.value)
+            if isinstance(e.value, (bytes, str)):
+                return len(e.value)
+            raise _Abort('constant')
+        if isinstance(e, ast.Name):
+            if e.id in env:
+                return env[e.id]
+            raise _Abort('name ' + e.id)
+        if isinstance(e, ast.BinOp) and isinstance(e.op, (ast.Add, ast.Sub)):
+            a, b = ev(e.left), ev(e.right)
+            return a + b if isinstance(e.op, ast.Add) else a - b
+        if isinstance(e, ast.UnaryOp) and isinstance(e.op, ast.Not):
+            return 0 if ev(e.operand) else 1
+        if isinstance(e, ast.Compare) and len(e.ops) == 1:
+            a, b = ev(e.left), ev(e.comparators[0])
+            return int({ast.Lt: a < b, ast.LtE: a <= b, ast.Gt: a > b, ast.GtE: a >= b, ast.Eq: a == b, ast.NotEq: a != b}[type(e.ops[0])])
+        if isinstance(e, ast.Call):
+            f = e.func
+            if isinstance(f, ast.Name) and f.id == 'len' and len(e.args) == 1:
+                return ev(e.args[0])
+            if isinstance(f, ast.Name) and f.id in ('bytearray', 'bytes') and not e.args:
+                return 0
+            if isinstance(f, ast.Name) and f.id in ('bytearray', 'bytes', 'min', 'max') and e.args:
+                vals = [ev(a) for a in e.args]
+                return min(vals) if f.id == 'min' else max(vals) if f.id == 'max' else vals[0]
+            if isinstance(f, ast.Attribute) and f.attr == 'recv':
+                return recv(ev(e.args[0]) if e.args else None)
+            if isinstance(f, ast.Attribute) and f.attr in ('extend', 'append') and isinstance(f.value, ast.Name) and len(e.args) == 1:
+                env[f.value.id] = env[f.value.id] + ev(e.args[0])
+                return 0
+        raise _Abort('expression ' + ast.unparse(e)[:30])
+
+    class _Ret(Exception):
+        def __init__(self, v):
+            self.v = v
+
+    def run(stmts):
+        for st in stmts:
+            steps[0] += 1
+            if steps[0] > 400:
+                raise _Abort('does not terminate')
+            if isinstance(st, ast.Assign) and len(st.targets) == 1 and isinstance(st.targets[0], ast.Name):
+                env[st.targets[0].id] = ev(st.value)
+            elif isinstance(st, ast.AugAssign) and isinstance(st.target, ast.Name) and isinstance(st.op, (ast.Add, ast.Sub)):
+                v = ev(st.value)
+                env[st.target.id] = env[st.target.id] + v if isinstance(st.op, ast.Add) else env[st.target.id] - v
+            elif isinstance(st, ast.Expr):
+                if not (isinstance(st.value, ast.Constant)):
+                    ev(st.value)
+            elif isinstance(st, ast.While):
+                while ev(st.test):
+                    steps[0] += 1
+                    if steps[0] > 400:
+                        raise _Abort('does not terminate')
+                    run(st.body)
+            elif isinstance(st, ast.If):
+                run(st.body if ev(st.test) else st.orelse)
+            elif isinstance(st, ast.Raise):
+                raise _Abort('raises')
+            elif isinstance(st, ast.Return):
+                raise _Ret(ev(st.value) if st.value is not None else 0)
+            else:
+                raise _Abort('statement ' + type(st).__name__)
+    try:
+        run(fdef.body)
+    except _Ret as r:
+        return r.v, taken[0]
+    raise _Abort('no return')
+
+
+def recv_loop_rule(chk, tree):
+    import itertools
+    chk.rule('C25-R4', 'the partial-read loop of the Python server returns exactly the n bytes it was asked for and takes no more than n from the socket, however the stream is cut into '
+                       'segments: MessageStream._recv_exact is interpreted (python ast, byte strings modelled by their lengths) for n = 1..5 over every segmentation of n + 2 bytes — '
+                       'a loop that subtracts the accumulated length instead of the last chunk stops early as soon as a read arrives in three pieces, and the rest is parsed as the '
+                       'next header')
+    fdefs = [f for c in tree.body if isinstance(c, ast.ClassDef) for f in c.body if isinstance(f, ast.FunctionDef) and any(
+        isinstance(x, ast.Call) and isinstance(x.func, ast.Attribute) and x.func.attr == 'recv' for x in ast.walk(f)) and any(isinstance(x, ast.While) for x in ast.walk(f))]
+    if not chk.need(len(fdefs) >= 1, 'repl_server.py: no method with a recv loop'):
+        return
+    nsim = 0
+    for fdef in fdefs:
+        bad = None
+        try:
+            for n in range(1, 6):
+                total = n + 2
+                for cuts in itertools.product((0, 1), repeat=total - 1):
+                    pieces, cur = [], 1
+                    for c in cuts:
+                        if c:
+                            pieces.append(cur)
+                            cur = 1
+                        else:
+                            cur += 1
+                    pieces.append(cur)
+                    try:
+                        got, taken = _simulate_recv(fdef, n, pieces)
+                    except _Abort as a:
+                        if str(a) in ('raises', 'does not terminate'):
+                            got, taken = str(a), None
+                        else:
+                            raise
+                    nsim += 1
+                    if (got, taken) != (n, n) and bad is None:
+                        bad = (n, pieces, got, taken)
+        except _Abort as a:
+            chk.need(False, 'repl_server.%s: cannot interpret the receive loop (%s)' % (fdef.name, a))
+            continue
+        if bad:
+            chk.bad('C25-R4', 'repl_server.MessageStream.' + fdef.name, 'inexact-read', '%s(%d) on a stream delivered as segments %s returns %s byte(s) and takes %s from the socket: a message '
+                    'that arrives in several segments is truncated and the remainder is decoded as the next message' % (fdef.name, bad[0], bad[1], bad[2], bad[3]), PY, fdef.lineno)
+        else:
+            chk.ok('C25-R4', fdef.name, sample='%s: exact for every segmentation' % fdef.name)
+    chk.count('receive-loop simulations', nsim)
